@@ -12,6 +12,7 @@ EXPLANATION = (
     'bits (fields tile the word without overlap or gap; accessor∘pack is the identity on each field\'s full width; significance order '
     'seconds > fractional > counter > node; archived cast is the identity on the word); E2 the order is the derived order of the single '
     'word (=C04.T1); E3 text form: writer (Display) and reader (FromStr) agree on arity, field order, radix and width per field; '
+    'E5 the 4 ms fraction is computed with one resolution constant on both sides (divide when packing, multiply when unpacking, same unit) and fits its 8 bits; '
     'E4 no may-panic site is reachable from HLCTimestamp::from_str or from the SQLite row decoders, which convert the parse error. '
     'NOT decided: rkyv round trip beyond cast; that every Duration maps to the intended 4 ms bucket.')
 ASSUMPTIONS = ['foreign callees not in rules/tables.py MAY_PANIC are assumed panic-free (std parse/from_str_radix with constant radix, rusqlite Row::get)']
@@ -390,8 +391,30 @@ def check_E4(ctx, facts):
             ctx.ok('C10.E4', key + '|no-panic', site(rb), 'no may-panic site outside the timestamp parser reachable (%d bodies)' % len(s2))
 
 
+def check_E5(ctx, facts):
+    """the fraction's resolution constant agrees between Duration -> parts and parts -> Duration"""
+    w = facts.body(T + 'duration_to_parts')
+    r = facts.body(T + 'parts_as_duration')
+    if w is None or r is None:
+        ctx.bad('C10.E5', 'anchors', '', 'duration_to_parts / parts_as_duration not found (fail closed)')
+        return
+    wd = [const_int(s['rv']['b']) for _b, _j, s in w.assigns() if s['rv']['k'] == 'bin' and s['rv']['op'] == 'Div']
+    rm = [const_int(s['rv']['b']) for _b, _j, s in r.assigns() if s['rv']['k'] == 'bin' and s['rv']['op'].startswith('Mul')]
+    wu = [cname(t) for _b, t in w.calls() if cname(t) and cname(t).startswith('core::time::Duration::subsec_')]
+    ru = [cname(t) for _b, t in r.calls() if cname(t) and cname(t).startswith('core::time::Duration::from_') and 'secs' not in cname(t)]
+    unit_ok = [last_seg(x).replace('subsec_', '') for x in wu] == [last_seg(x).replace('from_', '') for x in ru]
+    good = len(wd) == 1 and wd == rm and wd[0] is not None and unit_ok
+    ctx.ob('C10.E5', 'fraction-resolution', good, site(r),
+           'fraction = %s / %s when packing and fraction * %s %s when unpacking' % (wu, wd, rm, ru) if good else
+           'packing divides %s by %s but unpacking multiplies by %s into %s: the time component does not round-trip at the stated resolution' % (wu, wd, rm, ru))
+    # the divided quantity fits the field: (max sub-second value) / k <= 255
+    if good and 'millis' in wu[0]:
+        ctx.ob('C10.E5', 'fraction-fits-u8', 999 // wd[0] <= 255, site(w), 'largest fraction 999/%d = %d fits 8 bits' % (wd[0], 999 // wd[0]))
+
+
 def check(ctx):
     facts = ctx.facts('prod')
+    check_E5(ctx, facts)
     check_E1(ctx, facts)
     c04.check_T1(ctx, facts)
     for o in ctx.obs:
